@@ -19,6 +19,13 @@ Further families:
     also 101, 201, 330): value files deleted in early pages (1-12 of them), deleted / truncated / extended in later ones
     (variant targets=[[kind, item], ...]), with or without the other damage kinds.
 
+  * a busy shard (family 'busy', every cache kind): while another SQLite connection holds the write lock of one cache / shard database
+    (taken before the call, or right before the call's BEGIN on that shard; kept for the whole call, or released after k failed BEGIN
+    attempts of a retrying call) check() / check(fix=True) with retry False / True either raises (Timeout; the VACUUM of a fixing run
+    raises sqlite3.OperationalError "database is locked") -- then nothing is claimed -- or returns a report that covers every
+    inconsistency of EVERY shard, the locked one included; a returned fixing run leaves nothing for the next check; once the lock is
+    gone check(fix=True) / check() behave as always.
+
 MONITOR (from the property text; an oracle written here recomputes the inconsistencies from the table
 dump and the directory listing, independently of the Coq model):
   * plain check() changes nothing (table dump, Settings counters, directory listing, file contents);
@@ -50,18 +57,22 @@ from instr import core, diskcache
 ID = 'C17'
 COQ_PROP = 'C17'
 LEVEL = 'proof'
-TRANSLATE = ['checkfn']
+TRANSLATE = ['checkfn', 'fanout', 'disk', 'sql']
 TRUSTED = [
     'coq/model/Check.v: hand-written interpretation of os.walk (listing taken when a directory is reached, never re-read), os.remove/os.rmdir/os.removedirs, the SELECT/UPDATE/DELETE of Cache.check and the Settings triggers; compared with the implementation (sorted warnings with their numbers, resulting rows, counters and tree) on every case of this run',
     'tools/emit_checkfn.py templates of Cache.check / FanoutCache.check (AST equality outside the guard, repair, walk and pass-order holes)',
+    'busy-shard family: harness/sched.py Tracer reports the PRAGMA integrity_check (start of a shard) and BEGIN statements of the calling thread; a '
+    'plain sqlite3 connection of the harness takes and releases the write lock from that hook (single-threaded, deterministic)',
 ]
 ASSUMPTIONS = [
-    'the database file itself is intact (PRAGMA integrity_check / VACUUM are outside the model) and the write lock can be taken',
+    'the database file itself is intact (PRAGMA integrity_check / VACUUM are outside the model) and the write lock can be taken (model and '
+    'correspondence; the busy-shard family of the monitors drops the second half)',
     'rowids are unique (INTEGER PRIMARY KEY); keys are not NULL',
     'directory tree of depth <= 2 below the cache directory (the layout Disk.filename produces), no symbolic links',
     'readable = the row resolves to a file of the recorded size; check() compares sizes only, so a truncated pickle or UTF-8 file stays undecodable after the repair (the harness truncates/extends raw binary and ASCII text files, whose every prefix/extension -- including the empty one, truncation to 0 bytes -- decodes)',
     'cache directories are given as absolute paths or as paths relative to the working directory (variant relative=True: one path component, the working directory does not change between opening the cache and the last check); disk_min_file_size is 16 or 0 (variant min_file_size=0: value files of length 0 that belong to undamaged items)',
-    'no concurrent writer while check() runs',
+    'no concurrent writer while check() runs; in the busy-shard family the other connection only HOLDS the write lock of one shard database '
+    '(BEGIN IMMEDIATE ... COMMIT, nothing written); each failed BEGIN / VACUUM of the caller waits the SQLite busy timeout (2 ms) in real time',
     'DjangoCache has no check() of its own: the DjangoCache-backed cases call check() of the FanoutCache object it delegates every call to (DjangoCache._cache)',
 ]
 
@@ -151,12 +162,12 @@ class DjangoHandle:
     FanoutCache that DjangoCache delegates every call to."""
     MISSING = object()
 
-    def __init__(self, d, mfs=MIN_FILE):
+    def __init__(self, d, mfs=MIN_FILE, timeout=None):
         from django.conf import settings
         if not settings.configured:
             settings.configure()
         from diskcache.djangocache import DjangoCache
-        self.dj = DjangoCache(d, {'SHARDS': SPARSE, 'DATABASE_TIMEOUT': 60, 'OPTIONS': {'disk_min_file_size': mfs, 'eviction_policy': 'none'}})
+        self.dj = DjangoCache(d, {'SHARDS': SPARSE, 'DATABASE_TIMEOUT': 60 if timeout is None else timeout, 'OPTIONS': {'disk_min_file_size': mfs, 'eviction_policy': 'none'}})
 
     def __setitem__(self, k, v):
         self.dj.set(k, v, timeout=None)
@@ -173,20 +184,22 @@ class DjangoHandle:
     def __iter__(self):
         return iter(self.dj._cache)
 
-    def check(self, fix=False):
-        return self.dj._cache.check(fix=fix)
+    def check(self, fix=False, retry=False):
+        return self.dj._cache.check(fix=fix, retry=retry)
 
     def close(self):
         self.dj.close()
 
 
-def open_cache(kind, d, mfs=MIN_FILE):
+def open_cache(kind, d, mfs=MIN_FILE, timeout=None):
+    """timeout: SQLite busy timeout of the cache's connections in seconds (None: the defaults of the library / 60 s behind DjangoCache)"""
     n = kind_shards(kind)
+    kw = {} if timeout is None else {'timeout': timeout}
     if kind == 'django':
-        return DjangoHandle(d, mfs)
+        return DjangoHandle(d, mfs, timeout)
     if n == 0:
-        return diskcache.Cache(d, disk_min_file_size=mfs, eviction_policy='none')
-    return diskcache.FanoutCache(d, shards=n, disk_min_file_size=mfs, eviction_policy='none')
+        return diskcache.Cache(d, disk_min_file_size=mfs, eviction_policy='none', **kw)
+    return diskcache.FanoutCache(d, shards=n, disk_min_file_size=mfs, eviction_policy='none', **kw)
 
 
 def shard_dirs(kind, d):
@@ -396,10 +409,10 @@ def oracle(obs_list):
     return sorted(out, key=repr)
 
 
-def run_check(c, fix):
+def run_check(c, fix, retry=None):
     with _warnings.catch_warnings():
         _warnings.simplefilter('always')
-        return c.check(fix=fix)
+        return c.check(fix=fix) if retry is None else c.check(fix=fix, retry=retry)
 
 
 # ---------------------------------------------------------------------------
@@ -573,6 +586,265 @@ def monitor(rec):
         if (i, key) not in r0:
             v('row_appeared', 'a row appeared during the repair')
     return out
+
+
+# ---------------------------------------------------------------------------
+# a busy shard: another connection holds the write lock of one cache / shard database while check() runs
+
+
+BUSY_MAX_BEGINS = 80        # safety net: the lock is let go after this many BEGIN statements of one call whatever else happens
+BUSY_TIMEOUT = 0.002        # SQLite busy timeout of the checked cache's connections (seconds of REAL time per failed BEGIN / VACUUM)
+# (fix, retry, lock taken 'before' the call | 'during' it (right before the call's BEGIN on that shard, i.e. after a fixing run's VACUUM),
+#  release: None = kept until the call is over | k = released when the caller makes BEGIN attempt k+1 on that shard)
+BUSY_COMBOS = [(False, False, 'before', None), (True, False, 'before', None), (False, True, 'before', 1), (False, True, 'before', 3),
+               (True, True, 'before', 2), (False, False, 'during', None), (True, False, 'during', None), (False, True, 'during', 2),
+               (True, True, 'during', 1), (True, True, 'during', 3)]
+
+
+def damaged_shards(rec_obs0, log, kind, d):
+    """indices of the shards that hold an inconsistency (oracle entries with a path; counter changes by the damage log)"""
+    out = {k[1] for k in oracle(rec_obs0) if k[1] is not None}
+    sds = [os.path.relpath(sd, d) for sd in shard_dirs(kind, d)]
+    for k, rel in log:
+        if k in ('count', 'size') and rel in sds:
+            out.add(sds.index(rel))
+    return sorted(out)
+
+
+def execute_busy(kind, template, damage, variant, lock, workdir):
+    """The damaged cache is opened with a short database timeout; one other connection takes the write lock of shard j as `lock` says;
+    check(fix, retry) is called once under that lock (outcome: the report, or the exception); then, the lock gone, the usual sequence
+    check(fix=True), check(), reads."""
+    import sched
+    d = os.path.join(workdir, 'c')
+    shutil.copytree(template, d)
+    mfs = var_mfs(variant)
+    log = apply_damage(kind, d, damage, variant)
+    sds = shard_dirs(kind, d)
+    fix, retry, take, release = lock['fix'], lock['retry'], lock['take'], lock.get('release')
+    st = {'shard': -1, 'failed': 0, 'held': False, 'took': False, 'begins': 0, 'after_begin': False}
+    rec = {'kind': kind, 'damage': list(damage), 'variant': dict(variant), 'log': log, 'dir': d, 'items': kind_items(kind, mfs), 'lock': dict(lock)}
+    rec['targets'] = {key: k for k, key in file_damage(kind, damage, variant)}
+    rec['obs0'] = [observe(sd) for sd in sds]
+    dam = damaged_shards(rec['obs0'], log, kind, d)
+    clean = [i for i in range(len(sds)) if i not in dam]
+    pool = (clean if lock.get('where') == 'clean' and clean else dam) or list(range(len(sds)))
+    j = pool[lock.get('rank', 0) % len(pool)]
+    rec['locked'] = j
+    rec['locked_is_damaged'] = j in dam
+    holder = sqlite3.connect(os.path.join(sds[j], 'cache.db'), isolation_level=None, timeout=0)
+
+    def acquire():
+        holder.execute('BEGIN IMMEDIATE')
+        st['held'] = st['took'] = True
+
+    def let_go():
+        if st['held']:
+            st['held'] = False
+            holder.execute('COMMIT')
+
+    def before(ev):
+        # A BEGIN that directly follows a BEGIN of the same thread means the earlier attempt failed (a retrying _transact tries
+        # again at once; a successful BEGIN is followed by other statements).  Nothing here depends on the ORDER in which the
+        # checked code visits its shards, except the moment a lock of kind 'during' is taken (the start of the (j+1)-th check of a
+        # cache / shard, counted by its PRAGMA integrity_check): if the code under check visits the shards differently, the lock is
+        # simply taken at another moment of the call.  The lock is let go after `release` failed attempts -- and in any case after
+        # BUSY_MAX_BEGINS BEGIN statements of the call, so that no behaviour of the checked code can make this loop for ever.
+        if ev.kind != 'sql':
+            return
+        if ev.what == 'PRAGMA' and 'integrity_check' in ev.detail[0]:
+            st['shard'] += 1            # check() of the next cache / shard begins
+        if ev.what != 'BEGIN':
+            st['after_begin'] = False
+            return
+        st['begins'] += 1
+        if st['after_begin'] and st['held']:
+            st['failed'] += 1
+        st['after_begin'] = True
+        if not st['took'] and take == 'during' and st['shard'] == j:
+            acquire()
+        elif st['held'] and ((release is not None and st['failed'] >= release) or st['begins'] > BUSY_MAX_BEGINS):
+            let_go()
+    tracer = sched.Tracer(before=before)
+    try:
+        with tracer:
+            c = open_cache(kind, d, mfs, timeout=BUSY_TIMEOUT)
+            try:
+                if take == 'before':
+                    acquire()
+                tracer.enable(True)
+                try:
+                    rec['busy'] = ('returned', parse_warnings(run_check(c, fix, retry), kind, d))
+                except Exception as e:  # noqa: BLE001  (the exception class is the outcome)
+                    rec['busy'] = ('raised', type(e).__name__, str(e)[:80])
+                    st['failed'] += st['held']          # the attempt that raised
+                finally:
+                    tracer.enable(False)
+                    let_go()
+                rec['failed_begins'] = st['failed']
+                rec['obs1'] = [observe(sd) for sd in sds]
+                rec['fix'] = parse_warnings(run_check(c, True), kind, d)
+                rec['obs2'] = [observe(sd) for sd in sds]
+                rec['second'] = parse_warnings(run_check(c, False), kind, d)
+                reads = {}
+                for k, v in rec['items']:
+                    try:
+                        reads[k] = ('val', c[k])
+                    except KeyError:
+                        reads[k] = ('missing', None)
+                    except Exception as e:  # noqa
+                        reads[k] = ('raised', type(e).__name__)
+                rec['reads'] = reads
+            finally:
+                c.close()
+    finally:
+        let_go()
+        holder.close()
+    return rec
+
+
+def busy_payload(rec, extra=None):
+    p = {'check': 'busy', 'kind': rec['kind'], 'damage': rec['damage'], 'variant': rec['variant'], 'lock': rec['lock'], 'applied': rec['log'],
+         'locked_shard': rec['locked'], 'outcome': rec['busy'][0], 'failed_begin_attempts': rec.get('failed_begins'),
+         'report': wkeys(rec['busy'][1])[:40] if rec['busy'][0] == 'returned' else list(rec['busy'][1:]),
+         'inconsistencies': oracle(rec['obs0'])[:40]}
+    if extra:
+        p.update(extra)
+    return p
+
+
+def lock_text(rec):
+    lk = rec['lock']
+    return 'check(fix=%r, retry=%r) while another connection holds the write lock of %s (taken %s, %s)' % (
+        lk['fix'], lk['retry'], 'the cache database' if kind_shards(rec['kind']) == 0 else 'shard %03d' % rec['locked'],
+        'before the call' if lk['take'] == 'before' else "right before the call's BEGIN on it",
+        'kept until the call was over' if lk.get('release') is None else 'released after %d failed BEGIN attempt(s)' % lk['release'])
+
+
+def monitor_busy(rec):
+    """-> list of fw.Violation.  A check that could not look at a shard must not return a normal-looking report."""
+    out = []
+
+    def v(sig, desc, **extra):
+        out.append(fw.Violation(sig, desc, busy_payload(rec, extra)))
+    fix = rec['lock']['fix']
+    want = oracle(rec['obs0'])
+    if rec['busy'][0] == 'raised':
+        name, text = rec['busy'][1], rec['busy'][2]
+        # Timeout: the write lock was not obtained; a fixing run fails earlier, in its VACUUM, with SQLite's own error
+        if not (name == 'Timeout' or (fix and name == 'OperationalError' and 'locked' in text)):
+            v('busy_check_raised:%s' % name, '%s raised %s(%s)' % (lock_text(rec), name, text))
+    else:
+        got = wkeys(rec['busy'][1])
+        for k in want:
+            if k not in got:
+                v('busy_shard_unreported:%s' % k[0], '%s returned a report of %d warning(s) that does not mention %r (the directory has %d '
+                  'inconsistencies, %d of them in the locked shard)' % (lock_text(rec), len(got), k, len(want),
+                                                                       sum(1 for x in want if x[1] == rec['locked'])), missing=list(k))
+                break
+        if not fix:
+            for k in got:
+                if k not in want:
+                    v('busy_spurious:%s' % k[0], '%s reports %r which is not an inconsistency of the directory' % (lock_text(rec), k), extra=list(k))
+                    break
+        elif rec['fix']:
+            v('busy_fix_incomplete', '%s returned, yet the next check(fix=True) still reports %r' % (lock_text(rec), wkeys(rec['fix'])[:6]))
+    if not fix and rec['obs0'] != rec['obs1']:
+        v('plain_check_changed_state', '%s changed the table, the counters or the directory' % lock_text(rec))
+    # the lock is gone: the usual sequence
+    left = oracle(rec['obs1'])
+    fixk = wkeys(rec['fix'])
+    for k in left:
+        if k not in fixk:
+            v('fix_unreported:%s' % k[0], 'after %s, check(fix=True) does not report %r' % (lock_text(rec), k), missing=list(k))
+            break
+    if rec['second']:
+        v('second_check_not_clean:%s' % '+'.join(sorted(set(k[0] for k in wkeys(rec['second'])))),
+          'after %s and check(fix=True), check() still reports %r' % (lock_text(rec), wkeys(rec['second'])[:6]))
+    targets = rec['targets']
+    orig = {k: expected(x) for k, x in rec['items']}
+    for k, (stt, got) in rec['reads'].items():
+        if k in targets:
+            if targets[k] == 'delete' and stt != 'missing':
+                v('lost_file_item_remains', 'item %r whose file was deleted is still there after the repair: %s' % (k, stt), key=k)
+                break
+            if targets[k] != 'delete' and stt == 'raised':
+                v('item_unreadable', 'item %r whose file was %sd cannot be read after the repair (%s %s)' % (k, targets[k], stt, got), key=k)
+                break
+        elif stt != 'val' or not (type(got) is type(orig[k]) and got == orig[k]):
+            v('undamaged_item_changed', 'undamaged item %r reads %s %r after the repair' % (k, stt, str(got)[:60]), key=k)
+            break
+    return out
+
+
+def busy_cases(ctx, thorough):
+    """(kind, damage subset, variant, lock): every cache kind x damage placements (fresh / existing directories, a shard without items)
+    x the locked shard (each damaged shard in turn, and an undamaged one) x BUSY_COMBOS (quick: 3-4 of the 10 per case, rotating; fewer damage subsets)."""
+    rng = random.Random(ctx.seed * 7919 + 31)
+    placed = ('add1', 'add2', 'dir2')
+    va = dict({k: 'new' for k in placed}, sign='up')
+    vb = dict({k: 'old' for k in placed}, sign='down')
+    cases = []
+    n = 0
+    for kind in ('fanout', 'fanout8', 'django', 'cache'):
+        dams = [(tuple(KINDS), va), (tuple(KINDS), dict(vb, trunc=0))]
+        if thorough:
+            dams += [(('delete',), va), ((), va)]
+        if kind in ('fanout8', 'django'):
+            dams.append((tuple(KINDS), dict(va, home='empty', home_index=1)))
+            if thorough:
+                dams.append((tuple(STRAY + ['count']), dict(va, home='empty', home_index=rng.randrange(8))))
+        for _ in range(6 if thorough else 1):
+            dams.append((tuple(k for k in KINDS if rng.random() < 0.5),
+                         dict({k: rng.choice(['new', 'old']) for k in placed}, sign=rng.choice(['up', 'down', 'zero']), trunc=rng.choice([0, TRUNC_LEN]))))
+        if kind == 'cache':
+            wheres = [('damaged', 0)]
+        elif kind == 'fanout':
+            wheres = [('damaged', 0), ('damaged', 1)]
+        else:
+            wheres = [('damaged', 0), ('damaged', 1), ('clean', rng.randrange(8))] + ([('damaged', 2)] if thorough else [])
+        for sub, var in dams:
+            for where, rank in wheres:
+                npick = len(BUSY_COMBOS) if thorough else 4 if kind == 'cache' else 3
+                picks = [BUSY_COMBOS[(n + 3 * t) % len(BUSY_COMBOS)] for t in range(npick)]        # 3 and 10 are coprime: every combination comes round
+                n += 1
+                for fix, retry, take, release in picks:
+                    cases.append((kind, sub, var, {'fix': fix, 'retry': retry, 'take': take, 'release': release, 'where': where, 'rank': rank}))
+    return cases
+
+
+def busy_shards(ctx, res, tmpl_of, thorough):
+    work = ctx.scratch('c17busy')
+    hist = {'raised': {}, 'returned': 0, 'waited': 0, 'cases': 0, 'locked_damaged_shard': 0}
+    seen = set()
+    for ci, (kind, sub, var, lock) in enumerate(busy_cases(ctx, thorough)):
+        wd = os.path.join(work, 'b%d' % ci)
+        os.makedirs(wd)
+        try:
+            rec = execute_busy(kind, tmpl_of(kind, var_mfs(var)), sub, var, lock, wd)
+        except Exception as e:  # noqa
+            import traceback
+            res.violations.append(fw.Violation('check_raised:%s' % type(e).__name__, 'check() without contention or the harness raised: ' + traceback.format_exc()[-600:],
+                                               {'check': 'busy', 'kind': kind, 'damage': list(sub), 'variant': var, 'lock': lock}))
+            continue
+        finally:
+            shutil.rmtree(wd, ignore_errors=True)
+        res.count(['busy', kind, list(sub), sorted(var.items()), sorted(lock.items(), key=repr)], nontrivial=bool(sub))
+        hist['cases'] += 1
+        hist['locked_damaged_shard'] += rec['locked_is_damaged']
+        hist['waited'] += rec.get('failed_begins', 0) > 0
+        if rec['busy'][0] == 'raised':
+            hist['raised'][rec['busy'][1]] = hist['raised'].get(rec['busy'][1], 0) + 1
+        else:
+            hist['returned'] += 1
+        for v in monitor_busy(rec):
+            if (v.sig, kind) not in seen:          # one report per signature and cache kind
+                seen.add((v.sig, kind))
+                res.violations.append(v)
+        if ci % 40 == 0:
+            res.sample({'busy_shard_case': busy_payload(rec)}, limit=3)
+    res.extra['busy_shard'] = {'cases': hist['cases'], 'locked_shard_was_damaged': hist['locked_damaged_shard'], 'calls_that_raised': hist['raised'],
+                               'calls_that_returned': hist['returned'], 'calls_with_a_failed_begin_attempt': hist['waited']}
 
 
 # ---------------------------------------------------------------------------
@@ -881,6 +1153,12 @@ def run(ctx, big=False, model=True):
                 'DjangoCache-backed caches with the damage in a shard without items; 150 file-backed rows); value files truncated to exactly 0 bytes '
                 '(about half of the truncations above and the directed family); caches opened with disk_min_file_size=0 holding three undamaged items whose '
                 'value files are legitimately empty (b\'\', \'\', an empty read=True stream), alone and combined with a relative directory.  '
+                'Busy shard (monitors only): Cache, FanoutCache (2 and 8 shards) and the FanoutCache behind a DjangoCache, damaged as above (all kinds in fresh / existing '
+                'directories, in a shard without items, one kind, none, random subsets), opened with a 2 ms database timeout; another SQLite connection holds the '
+                'write lock of one shard database -- each damaged shard in turn, or an undamaged one -- taken before the call or right before the call\'s BEGIN '
+                'on that shard, kept until the call is over (retry=False) or released after 1-3 failed BEGIN attempts (retry=True), for check() and check(fix=True): '
+                'the call raises (Timeout, or sqlite3.OperationalError from the VACUUM of a fixing run), or the report it returns mentions every inconsistency of every '
+                'shard and a returned fixing run leaves nothing to report; afterwards check(fix=True) / check() / reads as in every other case.  '
                 'non-trivial = at least one damage kind; distinct = distinct (cache kind, subset, placement, damaged items, relative, truncation length, min file size).')
     check_witness(res)          # first, so that a regression of D16 is reported with this witness
     cases = all_cases(ctx, thorough)
@@ -922,6 +1200,13 @@ def run(ctx, big=False, model=True):
         if ci % 7 == 0:
             res.sample({'kind': kind, 'damage': list(sub), 'placement': var, 'plain': wkeys(rec['plain']), 'fix': wkeys(rec['fix']),
                         'second': wkeys(rec['second'])}, limit=4)
+    busy_tmpl = dict(tmpl)
+
+    def tmpl_of(kind, mfs):
+        if (kind, mfs) not in busy_tmpl:
+            busy_tmpl[(kind, mfs)] = build_template(ctx, kind, mfs)
+        return busy_tmpl[(kind, mfs)]
+    busy_shards(ctx, res, tmpl_of, thorough)
     if model and not ctx.search_mode:
         correspondence(ctx, res, recs)
     res.extra.update({'damage_kind_histogram': hist_kind, 'cases_by_number_of_damage_kinds': {str(k): v for k, v in sorted(hist_n.items())},
@@ -957,6 +1242,21 @@ def replay(payload):
         tmpl = build_template(C(), kind, var_mfs(variant))
         wd = os.path.join(d, 'w')
         os.makedirs(wd)
+        if case.get('check') == 'busy':
+            rec = execute_busy(kind, tmpl, case.get('damage', []), variant, case['lock'], wd)
+            vs = monitor_busy(rec)
+            print('damage %r (%s, placement %r)' % (case.get('damage'), kind, variant))
+            print('  inconsistencies: %r' % (oracle(rec['obs0']),))
+            print('  %s' % lock_text(rec))
+            if rec['busy'][0] == 'raised':
+                print('  -> raised %s(%s) after %d failed BEGIN attempt(s)' % (rec['busy'][1], rec['busy'][2], rec['failed_begins']))
+            else:
+                print('  -> returned %r after %d failed BEGIN attempt(s)' % (wkeys(rec['busy'][1]), rec['failed_begins']))
+            print('  then check(fix=True): %r' % (wkeys(rec['fix']),))
+            print('  then check()        : %r' % (wkeys(rec['second']),))
+            for v in vs:
+                print('  %s: %s' % (v.sig, v.desc))
+            return not vs
         rec = execute(kind, tmpl, case.get('damage', []), variant, wd)     # honours variant relative / trunc / min_file_size
         vs = monitor(rec)
         print('damage %r (%s, placement %r)' % (case.get('damage'), kind, case.get('variant')))
